@@ -81,7 +81,7 @@ let site_text = function
   | SUndoFailedAll -> "undo failed" | SFailedUndoToggle -> "Failed undo toggle" | SFailedUndoSearch -> "Failed undo search"
   | SIndex _ -> "index out of bounds" | SUndoFailed -> "Undo failed" | SUndoUnwrap -> "unwrap" | SIncFailed -> "Inc failed"
   | SFailedPartialClear -> "Failed partial clear" | SExceedingRetries -> "Exceeding retries"
-  | SUnreserveFailed -> "Unreserve failed" | STreeFree -> "assertion failed: free <= TREE_FRAMES" | SUnreserveClass -> "unreserve invalid class"
+  | SUnreserveFailed -> "Unreserve failed" | STreeFree -> "trees.rs:" | SUnreserveClass -> "unreserve invalid class"
   | SLocalFree -> "assertion failed: self.free() + free <= TREE_FRAMES" | SArith _ -> "overflow" | _ -> "\000"
 
 (* ---------- calls ---------- *)
@@ -159,6 +159,8 @@ type run = {
   mutable post_drained : bool;
   mutable post_stats : (int * int * int) option;
   mutable last_stats : (int * int * int) option;
+  mutable pending_tstats : int option;   (* tree_stats line since the last quiescent check *)
+  mutable pending_validate : string option;
   mutable post_tstats : int option;
   mutable post_validate : string option;
   mutable end_dump : (n list * n list list * n list * n list) option;
@@ -175,7 +177,7 @@ let r =
   { id = ""; scenario = ""; mode = ""; cfg = ""; g = { hord = nat_of_int 9; tlog = nat_of_int 2 };
     pol = (fun _ _ _ -> PInvalid); polname = ""; classes = []; dflt = 0; hf = 512; tf = 2048; thuge = 4; nframes = 0; nthreads = 0;
     ms = None; diverged = false; cur = [||]; started = [||]; iheld = []; offline = []; clock = 0; run_panics = 0;
-    post_drained = false; post_stats = None; last_stats = None; post_tstats = None; post_validate = None; end_dump = None; msgs = [];
+    post_drained = false; post_stats = None; last_stats = None; pending_tstats = None; pending_validate = None; post_tstats = None; post_validate = None; end_dump = None; msgs = [];
     sched = "?"; tids = Buffer.create 64; nontrivial = false; prev = -1; nsteps = 0; active = false }
 
 (* summary counters *)
@@ -326,7 +328,9 @@ let account ctx call impl started =
     incr panics;
     r.run_panics <- r.run_panics + 1;
     if contains impl "Exceeding retries" then incr known_panics;
-    oracle "[C03]" (Printf.sprintf "%s %s: %s" ctx (show_icall call) impl)
+    oracle "[C03]"
+      (Printf.sprintf "%s %s: %s%s" ctx (show_icall call) impl
+         (match call with IPut _ when ctx = "post-run" -> " (free of a held block panicked in the post phase)" | _ -> ""))
   end;
   match call with
   | IGet (_, o, c, _) ->
@@ -350,7 +354,8 @@ let account ctx call impl started =
         | _ -> failwith ("bad get result " ^ impl)
       end
   | IPut (f, o, _, _) ->
-      if (not is_panic) && impl <> "ok" then oracle "[C03]" (Printf.sprintf "%s: free of a held block returned [%s]: %s" ctx impl (show_icall call));
+      if (not is_panic) && impl <> "ok" then
+        oracle "[C03]" (Printf.sprintf "%s: free of a held block %s [%s]: %s" ctx (if ctx = "post-run" then "failed in the post phase:" else "returned") impl (show_icall call));
       ignore (f, o)
   | IChange (Some i, _, _, _, "offline") -> if impl = "ok" then r.offline <- (i, r.clock) :: List.remove_assoc i r.offline
   | _ -> ()
@@ -619,11 +624,16 @@ let do_post tokens =
       let v = Some (int_of_string (kv_exn rest "free_frames"), int_of_string (kv_exn rest "free_huge"), int_of_string (kv_exn rest "free_trees")) in
       r.last_stats <- v;
       if r.post_stats = None then r.post_stats <- v
-  | "tree_stats" :: rest -> r.post_tstats <- Some (int_of_string (kv_exn rest "free_frames"))
+  | "tree_stats" :: rest ->
+      let v = Some (int_of_string (kv_exn rest "free_frames")) in
+      if not r.post_drained then r.post_tstats <- v else r.pending_tstats <- v
   | "validate" :: rest ->
-      r.post_validate <- Some (String.concat " " rest);
-      (* everything C04 needs has been read *)
-      if r.run_panics = 0 then check_quiescent ()
+      if not r.post_drained then begin
+        r.post_validate <- Some (String.concat " " rest);
+        (* everything C04 needs at END has been read *)
+        if r.run_panics = 0 then check_quiescent ()
+      end
+      else r.pending_validate <- Some (String.concat " " rest)
   | _ ->
       let call, res = parse_icall tokens in
       let impl = String.concat " " res in
@@ -676,6 +686,8 @@ let suite file keys =
           r.post_drained <- false;
           r.post_stats <- None;
           r.last_stats <- None;
+          r.pending_tstats <- None;
+          r.pending_validate <- None;
           r.post_tstats <- None;
           r.post_validate <- None;
           r.end_dump <- None;
@@ -698,8 +710,10 @@ let suite file keys =
           if r.run_panics = 0 then begin
             r.end_dump <- Some (parse_dump rest);
             r.post_stats <- r.last_stats;
-            r.post_tstats <- None;
-            r.post_validate <- None;
+            r.post_tstats <- r.pending_tstats;
+            r.post_validate <- r.pending_validate;
+            r.pending_tstats <- None;
+            r.pending_validate <- None;
             check_quiescent ()
           end
       | "SOLO" :: rest -> do_solo rest
